@@ -24,24 +24,105 @@ def child_loc(ch) -> str:
 # --------------------------------------------------------------------------
 # renames performed by groom / ungroom overrides
 # --------------------------------------------------------------------------
-def renames_in(fn: ast.FunctionDef) -> List[Tuple[str, str]]:
-    """(FROM, TO) for each `x = elem.find("./FROM") ... x.tag = "TO"`, also for loops over
-    elem.findall/iter"""
+class Rename(tuple):
+    """(FROM, TO) plus how the element was looked up"""
+
+    def __new__(cls, frm, to, path, method, via):
+        self = super().__new__(cls, (frm, to))
+        self.frm, self.to, self.path, self.method, self.via = frm, to, path, method, via
+        return self
+
+    @property
+    def direct_child(self) -> bool:
+        """the lookup only sees direct children of the element being groomed"""
+        if self.method not in ("find", "findall", "iterfind"):
+            return False
+        pth = self.path
+        if pth.startswith("./"):
+            pth = pth[2:]
+        return "/" not in pth and pth not in ("", "*", ".") and not pth.startswith(".")
+
+
+def _fold_str(e, bind) -> Optional[str]:
+    if isinstance(e, ast.Constant) and isinstance(e.value, str):
+        return e.value
+    if isinstance(e, ast.Name) and e.id in bind:
+        return bind[e.id]
+    if isinstance(e, ast.BinOp) and isinstance(e.op, ast.Add):
+        a, b = _fold_str(e.left, bind), _fold_str(e.right, bind)
+        return a + b if a is not None and b is not None else None
+    if isinstance(e, ast.JoinedStr):
+        out = ""
+        for v in e.values:
+            if isinstance(v, ast.Constant):
+                out += str(v.value)
+            elif isinstance(v, ast.FormattedValue) and v.format_spec is None:
+                x = _fold_str(v.value, bind)
+                if x is None:
+                    return None
+                out += x
+            else:
+                return None
+        return out
+    if isinstance(e, ast.Call) and isinstance(e.func, ast.Attribute) and e.func.attr == "format":
+        base = _fold_str(e.func.value, bind)
+        args = [_fold_str(a, bind) for a in e.args]
+        if base is None or any(a is None for a in args):
+            return None
+        try:
+            return base.format(*args)
+        except Exception:
+            return None
+    return None
+
+
+def renames_in(fn: ast.FunctionDef, project: Optional[Project] = None, modname: Optional[str] = None, bind=None, depth=2, via="") -> List[Rename]:
+    """every `x = <elem>.find(PATH) ... x.tag = NEW` in fn, and (one or two levels deep) in
+    module-level helper functions fn calls with constant tag arguments"""
+    bind = bind or {}
     defs = local_defs(fn)
-    out = []
+    out: List[Rename] = []
     for st in own_statements(fn):
         if isinstance(st, ast.Assign) and len(st.targets) == 1:
             t = st.targets[0]
-            if isinstance(t, ast.Attribute) and t.attr == "tag" and isinstance(t.value, ast.Name) and is_const_str(st.value):
+            if isinstance(t, ast.Attribute) and t.attr == "tag" and isinstance(t.value, ast.Name):
+                new = _fold_str(st.value, bind)
+                if new is None:
+                    raise AnalysisError(f"rename in {fn.name}: new tag {ast.unparse(st.value)} is not a constant")
                 srcs = []
                 for d in defs.get(t.value.id, []):
                     v = d.value
-                    if isinstance(v, ast.Call) and isinstance(v.func, ast.Attribute) and v.func.attr in ("find", "findall", "iter", "iterfind") and v.args and is_const_str(v.args[0]):
-                        srcs.append(v.args[0].value.split("/")[-1])
+                    if isinstance(v, ast.Call) and isinstance(v.func, ast.Attribute) and v.func.attr in ("find", "findall", "iter", "iterfind") and v.args:
+                        pth = _fold_str(v.args[0], bind)
+                        if pth is None:
+                            raise AnalysisError(f"rename to {new!r} in {fn.name}: lookup path {ast.unparse(v.args[0])} is not a constant")
+                        srcs.append((pth, v.func.attr))
                 if not srcs:
-                    raise AnalysisError(f"rename to {st.value.value!r} in {fn.name}: cannot see which tag is renamed")
-                for s in srcs:
-                    out.append((s, st.value.value))
+                    raise AnalysisError(f"rename to {new!r} in {fn.name}: cannot see which tag is renamed")
+                for pth, meth in srcs:
+                    out.append(Rename(pth.split("/")[-1], new, pth, meth, via or fn.name))
+    if project is not None and modname is not None and depth > 0:
+        for n in own_nodes(fn):
+            if isinstance(n, ast.Call) and isinstance(n.func, ast.Name):
+                target = project.resolve(modname, n.func.id)
+                if isinstance(target, Func) and target.node is not fn:
+                    hp = params_of(target.node)
+                    hb = {}
+                    for i, a in enumerate(n.args):
+                        if i < len(hp):
+                            v = _fold_str(a, bind)
+                            if v is not None:
+                                hb[hp[i]] = v
+                    for k in n.keywords:
+                        if k.arg:
+                            v = _fold_str(k.value, bind)
+                            if v is not None:
+                                hb[k.arg] = v
+                    try:
+                        out += renames_in(target.node, project, target.module, hb, depth - 1, via=f"{fn.name}->{target.node.name}")
+                    except AnalysisError:
+                        if any(isinstance(x, ast.Attribute) and x.attr == "tag" and isinstance(x.ctx, ast.Store) for x in ast.walk(target.node)):
+                            raise
     return out
 
 
@@ -79,7 +160,7 @@ def s_r1_tags(schema: Schema, rep: Report):
     # renames
     by_class: Dict[ClassInfo, Dict[str, List[Tuple[str, str]]]] = {}
     for ci, nm, fn in groom_overrides(schema):
-        by_class.setdefault(ci, {})[nm] = renames_in(fn)
+        by_class.setdefault(ci, {})[nm] = renames_in(fn, schema.p, ci.module)
     nren = 0
     for ci, d in by_class.items():
         g, u = d.get("groom", []), d.get("ungroom", [])
